@@ -101,10 +101,15 @@ def one_call(ctx: Ctx, cfg: dict) -> dict:
     if cfg.get("dns") and not cfg["domain"].startswith("."):
         # no server given: SRV discovery; the answer has several records, the best one (lowest priority, highest weight) decides
         kw["server"] = None
-        if cfg["op"] == "protect":
-            kw["domain_name"] = cfg["domain"]
         qname = "_ldap._tcp.dc._msdcs." + cfg["domain"]
         host = "best." + cfg["domain"]
+        if cfg["op"] == "protect" and cfg.get("upn"):
+            # neither server nor domain_name: the bare locator prefix goes through the resolver's search list, whatever the
+            # form of the user name (a UPN suffix is not the domain to look in)
+            kw["username"] = f"{refdc.USER}@{refdc.DOMAIN}"
+            qname = "_ldap._tcp.dc._msdcs"
+        elif cfg["op"] == "protect":
+            kw["domain_name"] = cfg["domain"]
     if cfg.get("dc_error"):
         dc.root_keys.clear()      # the DC does not know the root key: GetKey fails with an HRESULT
     import dns.asyncresolver
